@@ -63,11 +63,12 @@ def c04(A):
                                            and not _accepted_between(A, c, prev_connects[-1]["i"], call["i"]))
             if c.lost_at(call["i"]) and call["phase"] == "lost" and "did" in ret and A.reqs[ret["did"]].called_at_return:
                 r0 = A.reqs[ret["did"]]
-                busy = False          # an earlier connect() after the loss that is still waiting for its timeout
+                busy = False          # an earlier connect() made after the loss and taken on: what it leaves behind on
+                                      # a dead transport (a timeout that no second loss report follows) is not defined
                 for call2, ret2, _pk in attempts[:n]:
                     if call2["i"] > c.i_lost and "did" in ret2:
                         r2 = A.reqs[ret2["did"]]
-                        if not r2.called_at_return and not r2.fired_before(call["i"]):
+                        if not r2.called_at_return:
                             busy = True
                 if not busy and r0.failed() and r0.fires[0]["etype"] == "MQTTStateError":
                     o.bad("connect-refused-on-idle/on-lost-protocol",
@@ -269,6 +270,15 @@ def c15(A):
                   and x["i"] == c.i_close_req]
             if ab:
                 o.bad("abort-although-answered", "keepalive closed a connection whose PINGREQs were all answered in time", ab[0])
+        # a timer may close an established connection only when a PINGREQ has been unanswered for k seconds
+        if c.i_close_req is not None and A.trace[c.i_close_req]["k"] == "tcall" and A.trace[c.i_close_req].get("cause") == "timer":
+            x = A.trace[c.i_close_req]
+            due = [e for e in up if e["t"] + k <= x["t"] + 1e-6 and not [y for y in resp if e["i"] < y["i"] < x["i"]]]
+            o.dec("timer_closes")
+            if not due:
+                last = up[-1]["t"] if up else None
+                o.bad("premature-abort", "a timer closed the connection at t=%.3f; the last PINGREQ went out at t=%s and keepalive is %d"
+                      % (x["t"], "%.3f" % last if last is not None else "never", k), x)
         # nothing of keepalive after the loss
         if c.i_lost is not None:
             latep = [e for e in pings if e["i"] > c.i_lost]
